@@ -263,6 +263,7 @@ func init() {
 		}
 		for i := 0; i < n; i++ {
 			g := newDocgen(rng, false)
+			g.specialKeys = i%2 == 1 // keys spelled exactly like other YAML types (always written as strings)
 			d := g.document()
 			text, form := renderDoc(d, i)
 			r, bad := runParse(text, form)
@@ -334,6 +335,33 @@ func init() {
 			if lost != "" {
 				oracleFail("C03", "data-loss-yaml", c, lost)
 				continue
+			}
+			// ... and the values read back from the YAML marshalling are those of the parsed pipeline (keys and
+			// values neither lost nor re-typed). Left to C09: the F17 class, a key spelled <<, and (YAML leg only)
+			// multi-line strings that begin with whitespace.
+			if !emptyPrimaryWithAlias(d) && !hasMergeKey(d) && !strings.Contains(out, `"\u003c\u003c":`) {
+				var outv any
+				json.Unmarshal(r.jsonOut, &outv)
+				var strs []string
+				collectStrings(outv, &strs)
+				excluded := false
+				for _, s2 := range strs {
+					if strings.ContainsAny(s2, "\n\r\u2028\u2029\u0085") && leadingSpace(s2) {
+						excluded = true
+					}
+				}
+				if !excluded {
+					py, perr := pipeline.Parse(bytes.NewReader(yb))
+					if perr != nil && !warning.Is(perr) {
+						oracleFail("C03", "yaml-marshal-unreadable", c, fmt.Sprintf("the YAML marshalling cannot be parsed again: %v\n%s", perr, yb))
+						continue
+					}
+					if a, b := projPipeline(r.p), projPipeline(py); a != b {
+						oracleFail("C03", "yaml-marshal-loses-values", c, fmt.Sprintf("the values read back from the YAML marshalling differ from the parsed pipeline's:\nparsed   : %s\nread back: %s\nYAML     : %s", a, b, yb))
+						continue
+					}
+					stat("C03", "yaml-read-back")
+				}
 			}
 			stat("C03", "form-"+form)
 			if r.err != nil {
